@@ -179,6 +179,27 @@ def run(tier, seed):
                 ck.disagree('%s mode output differs from the model' % mode, rp | {'impl': b[0][:200], 'model': mo[:200]})
             elif clirun.diag_lines(b[1]) != me:
                 ck.disagree('number of diagnostics on stderr differs from the model', rp | {'impl': clirun.diag_lines(b[1]), 'model': me, 'stderr': b[1][-400:]})
+        # a truncated BMC log whose reference code goes to another bundled SRC parser of the SAME component, listed before / after a
+        # good one (judged on the real runs alone: the bundled SRC parsers are outside the model)
+        w_ = [0x00000055, 0x00000010, 0, 0, 0x20DA0002, 0x00010000, 0x12340001, 0]
+        good_bd = pelbuild.pel([pelbuild.UH(comp=0xE500), pelbuild.SRC(asc=b'BD10E510', words=w_, comp=0xE500, sub=1), pelbuild.UD(bytes(range(32)), sub=0x99, comp=0xE500)], creator=b'O', eid=0x0C090001)
+        other_bc = pelbuild.pel([pelbuild.UH(comp=0xE500), pelbuild.SRC(asc=b'BC10E510', words=w_, comp=0xE500, sub=1), pelbuild.UD(bytes(range(32)), sub=0x99, comp=0xE500)], creator=b'O', eid=0x0C090002)[:-9]
+        alone = clirun.make_dir([('good_bd', good_bd)])
+        paths.append(alone)
+        for order_ in ([('good_bd', good_bd), ('trunc_bc', other_bc)], [('trunc_bc', other_bc), ('good_bd', good_bd)], [('0_trunc_bc', other_bc), ('good_bd', good_bd), ('z_trunc_bc', other_bc)]):
+            both = clirun.make_dir(order_)
+            paths.append(both)
+            for argv in (['-a', '-E'], ['-a', '-x', '-E']):   # (the summary modes stop at the primary SRC: for them this file is decodable)
+                apel.reset_caches()
+                a = clirun.run_main(['-p', alone] + argv)
+                apel.reset_caches()
+                b = clirun.run_main(['-p', both] + argv)
+                ck.case(key=('bundled-src', tuple(n for n, _ in order_), tuple(argv)))
+                ck.count('truncated log of another bundled SRC parser next to a good one')
+                if b[2] != 0 or a[0] != b[0]:
+                    ck.fail('a truncated log changed what is printed for a good log that uses a bundled SRC parser of the same component',
+                            {'op': 'cli', 'argv': argv, 'files': [('good_bd', good_bd.hex())], 'junk': [(n, x.hex()) for n, x in order_ if n != 'good_bd'], 'exit': b[2],
+                             'clean': a[0][:400], 'with_junk': b[0][:400]}, 'interference_bundled')
         # the same pairs in interpreters that run with assertions disabled (`python -O`): truncated files must stay undecodable there
         for (mode, argv, cfg, clean, dirty, files, junk) in [m for m in meta if m[5] and m[6]][::(3 if thorough else 6)]:
             # (also: an undecodable file whose NAME is not valid UTF-8 -- what the diagnostic says about it must not end the run)
